@@ -829,6 +829,9 @@ func (mc *machine) insert(rt *rapid.T) {
 				o.defaulted = o.defaulted || mc.declaredDefault(b)
 			}
 		case "insert-ignore":
+			if len(b.nullDefault) > 0 && !cur[id] {
+				o.class = either
+			}
 			switch {
 			case cur[id]: // duplicate: skipped
 			case len(b.checkViol) > 0:
@@ -1042,6 +1045,11 @@ func (mc *machine) apply(old []val, as []assignment, insertRow []val, adjust boo
 	for i := range t.cols {
 		if t.cols[i].gen == nil && t.cols[i].notNull && b.row[i].null {
 			b.nullViol = append(b.nullViol, i)
+			for _, a := range as {
+				if a.col == i && a.dflt {
+					b.nullDefault = append(b.nullDefault, i)
+				}
+			}
 			if adjust {
 				b.row[i] = zero(t.cols[i].k)
 			}
@@ -1202,6 +1210,9 @@ func (mc *machine) update(rt *rapid.T) {
 		u := mc.apply(old, as, nil, ignore)
 		if sameRow(u.row, old) && len(u.nullViol) == 0 {
 			continue // unchanged rows are not re-validated
+		}
+		if ignore && len(u.nullDefault) > 0 {
+			o.class = either
 		}
 		switch {
 		case !ignore && !u.ok():
